@@ -44,6 +44,7 @@ def enum_cases(ctx):
 
 
 PAIRS_PER_DOC = 200         # thorough tier: class pairs tried on one document (stratified sample, see class_pairs)
+BUILTIN_DOCS = 11
 LEAF_CAP = {'quick': 10, 'thorough': 40}
 UNIT_FAULTS = ('offset_units', 'undefined_units_reference', 'unit_cycle', 'duplicate_units')
 UNIT_CAP = {'quick': 5, 'thorough': 12}
@@ -84,6 +85,11 @@ def doc_cases(seed, tier, index, pairs):
         if len(mine) > UNIT_CAP[tier]:
             keep = rng.sample(mine, UNIT_CAP[tier])
             rest = [x for x in rest if x[0] != cls or x in keep]
+    # redefinition of a built-in unit: ALL 33 names x {derived, new base unit} x {used by a variable, unused} in every run,
+    # dealt over the first BUILTIN_DOCS documents
+    allb = G.builtin_override_sites()
+    if index < BUILTIN_DOCS:
+        rest = rest + allb[index::BUILTIN_DOCS]
     singles = []
     for f in rest + leaf:
         fd = G.apply_fault(doc, f)
